@@ -702,6 +702,7 @@ func ruleRangeHandler(c *Ctx, prefix string, want map[string]bool) {
 	if want["C03"] {
 		emit("DB.PERSIST-BEFORE-REPLY", "new allocations and expiry changes are persisted (under the client's hardware address) before any reply is returned")
 		emit("DB.EXPIRY", "every stored expiry is now + lease time")
+		emit("RANGE.LEASETIME", "every reply carries option 51 built from the configured lease time: what is promised is what was stored")
 	}
 }
 
